@@ -19,10 +19,48 @@ def gen_docs(rng, uid):
 
 
 def gen_case(rng):
+    """-> (marks, lines, items, shapes); items = [(statement, docs written before it, docs written after it)].
+    A blank line does not end a pre-alt block (shape "blank_in_prealt": a comment line after a blank line inside the
+    block is documentation too); it does end an alt block."""
     marks = rng.choice(MARKSETS)
     doc, pre, alt, prealt = marks
     items, lines = [], []
+    shapes = set()
     uid = 0
+    alt_open = False      # the previous item ended with an alternate block that no blank line has closed
+
+    def pre_block(ind):
+        nonlocal uid
+        uid += 1
+        docs = gen_docs(rng, uid)
+        mixed = rng.random() < 0.4     # the pre-marker is only required on the first line
+        for i, d in enumerate(docs):
+            lines.append(f"{ind}!{pre}{d}" if (i == 0 or not mixed) else f"{ind}!{doc}{d}")
+            if i + 1 < len(docs) and rng.random() < 0.15:
+                lines.append(rng.choice(["", ind + "! ordinary, inside the block"]))
+        while rng.random() < 0.25:
+            lines.append(rng.choice(["", "  ", ind + "! ordinary"]))
+        return docs
+
+    def prealt_block(ind):
+        nonlocal uid
+        uid += 1
+        docs = gen_docs(rng, uid)
+        for i, d in enumerate(docs):
+            lines.append(f"{ind}!{prealt}{d}" if i == 0 else f"{ind}!{d}")
+        while rng.random() < 0.25:
+            lines.append(rng.choice(["", "   "]))
+        if rng.random() < 0.15:
+            uid += 1
+            late = f" w{uid}_late after a blank line"
+            lines.append(rng.choice(["", "  "]))
+            lines.append(f"{ind}!{late}")
+            docs = docs + [late]
+            shapes.add("blank_in_prealt")
+            while rng.random() < 0.25:
+                lines.append("")
+        return docs
+
     nitems = rng.choice([1, 2, 3, 5])
     for k in range(nitems):
         st = rng.choice(STMTS)
@@ -38,23 +76,25 @@ def gen_case(rng):
         else:
             st_full = st
         pre_lines, post_lines = [], []
-        # preceding documentation
+        # preceding documentation: nothing, one block of either kind, or two blocks
         r = rng.random()
-        if r < 0.25 and pre:
-            uid += 1
-            pre_lines = gen_docs(rng, uid)
-            mixed = rng.random() < 0.4     # the pre-marker is only required on the first line
-            for i, d in enumerate(pre_lines):
-                lines.append(f"{ind}!{pre}{d}" if (i == 0 or not mixed) else f"{ind}!{doc}{d}")
-            while rng.random() < 0.25:
-                lines.append(rng.choice(["", "  ", ind + "! ordinary"]))
-        elif r < 0.5 and prealt:
-            uid += 1
-            pre_lines = gen_docs(rng, uid)
-            for i, d in enumerate(pre_lines):
-                lines.append(f"{ind}!{prealt}{d}" if i == 0 else f"{ind}!{d}")
-            while rng.random() < 0.25:
-                lines.append(rng.choice(["", "   "]))
+        if r < 0.22 and pre:
+            pre_lines = pre_block(ind)
+        elif r < 0.44 and prealt:
+            pre_lines = prealt_block(ind)
+        elif r < 0.52 and pre and prealt:
+            shapes.add("two_pre_blocks")
+            if rng.random() < 0.5:
+                pre_lines = pre_block(ind)
+                pre_lines = pre_lines + prealt_block(ind)
+            else:
+                pre_lines = prealt_block(ind)
+                pre_lines = pre_lines + pre_block(ind)
+        if alt_open and pre_lines == [] and head == []:
+            shapes.add("alt_block_ended_by_statement")
+        elif alt_open:
+            shapes.add("alt_block_ended_by_marked_line")
+        alt_open = False
         # the statement, with following documentation
         lines += head
         r = rng.random()
@@ -76,10 +116,16 @@ def gen_case(rng):
             lines.append(ind + st)
             for i, d in enumerate(post_lines):
                 lines.append(f"{ind}  !{alt}{d}" if i == 0 else f"{ind}  !{d}")
-            lines.append("")
+            if rng.random() < 0.5:
+                lines.append("")
+            else:
+                # the block is ended by whatever comes next that is not a plain comment line
+                alt_open = True
+                items.append((st_full, pre_lines, post_lines))
+                continue
         else:
             lines.append(ind + st + (rng.choice(["", " ! ordinary trailing comment", "   "])))
         while rng.random() < 0.3:
             lines.append(rng.choice(["", "   ", ind + "! an ordinary comment", "! another ; one &"]))
         items.append((st_full, pre_lines, post_lines))
-    return marks, lines, items
+    return marks, lines, items, shapes
